@@ -8,6 +8,7 @@ import (
 	"unsafe"
 
 	"github.com/arnodel/golua/lib/base"
+	"github.com/arnodel/golua/luastrings"
 	rt "github.com/arnodel/golua/runtime"
 )
 
@@ -238,7 +239,7 @@ func quote(v rt.Value) (string, bool) {
 	case rt.BoolType:
 		return strconv.FormatBool(v.AsBool()), true
 	case rt.StringType:
-		return strconv.Quote(v.AsString()), true // An approximation
+		return luastrings.Quote(v.AsString(), '"'), true
 	default:
 		return "", false
 	}
